@@ -12,6 +12,7 @@ import AferoVerif.Engine.BpFs
 import AferoVerif.Engine.ReFs
 import AferoVerif.Engine.CacheFs
 import AferoVerif.Engine.CopyFault
+import AferoVerif.Engine.Archive
 open AferoVerif
 
 partial def loop {σ : Type} (h : IO.FS.Stream) (out : IO.FS.Stream) (step : σ → String → σ × String) (s : σ) : IO Unit := do
@@ -36,4 +37,5 @@ def main (args : List String) : IO UInt32 := do
   | ["refs"] => loop stdin stdout Engine.ReFs.stepLine {}; return 0
   | ["cachefs"] => loop stdin stdout Engine.CacheFs.stepLine {}; return 0
   | ["copyfault"] => loop stdin stdout Engine.CopyFault.stepLine (); return 0
+  | ["archive"] => loop stdin stdout Engine.Archive.stepLine Engine.Archive.init; return 0
   | _ => IO.eprintln "usage: driver <engine>"; return 2
